@@ -229,7 +229,8 @@ func (f *FibStrategyTree) UpdateBatch(fn func(b FibBatch)) {
 	verifBeforeWLock(&f.fibStrategyRWMutex, "fib.lock")
 	f.fibStrategyRWMutex.Lock()
 	defer f.fibStrategyRWMutex.Unlock()
-	verifMutating(&f.fibStrategyRWMutex, "fib.mut")
+	verifMutating(&f.fibStrategyRWMutex, "fib.batch")
+	defer verifYield("fib.batch-end")
 	fn(fibTreeBatch{f})
 }
 
